@@ -16,6 +16,14 @@ CLAIMED = {
    note='Trusted: clang 14 AST/CFG, the extractor, std containers per the C++ standard. Not decided: alignment of level indices after removeError in the middle of the list (a history argument).',
    ref='DESIGN.md section 4, C15'),
 
+ 'C08': dict(
+   technique='static analysis: constant tables vs an independent SI oracle; symbolic normal forms (polynomials over roles) of the three unit reducers evaluated on a generic three-level chain and compared',
+   text='(T) standardUnitsList/standardMultiplierList/standardPrefixList and the enum spellings are read from their initialisers and compared value by value with the SI definitions and with each other; '
+        '(M) the scale and base-exponent reducers in units.cpp, validator.cpp and analyser.cpp are abstracted from their ASTs (roles resolved by position, not by name) and must yield the same polynomial as the algebra of units '
+        'on T->R->Q->standard unit, under the property\'s exponent-1 restriction; every recursive call must carry the inherited exponent and per-child accumulators must be fresh; (G) null/compatibility gates precede the reductions. '
+        'No scaling factor is computed by running the library; the relation axioms on doubles are not decided.',
+   note='Trusted: sa/tables/si.json (hand-written from the SI brochure), clang AST. If a reducer is restructured beyond the accumulate/recursive-call shape the anchors vanish (exit 2). Two reducer defects were replayed and repaired.',
+   ref='DESIGN.md section 4, C08'),
  'C10': dict(
    technique='static analysis: per-return field-coverage via CFG dominance and branch facts over the doEquals chain; size-symmetry and direct-children rules',
    text='For every doEquals in the Entity hierarchy and every CFG path to a result that can be true: every attribute field of the class was read on this side, '
